@@ -8,12 +8,14 @@ import (
 	"os"
 
 	"verifharness/lib"
+	"verifharness/props/c01"
 	"verifharness/props/c15"
 	"verifharness/props/c16"
 	"verifharness/props/c20"
 )
 
 var table = map[string]func(lib.Opts){
+	"C01": c01.Run,
 	"C15": c15.Run,
 	"C16": c16.Run,
 	"C20": c20.Run,
